@@ -148,6 +148,19 @@ def check_export(spec):
         if spec.get("expect") == "unsupported":
             return ok(outcome="ValueError", nontrivial=True)
         raise
+    # ---- exporting is a pure function of the circuit: the caller's tape is untouched and a second export gives the same program
+    if len(tape.operations) != len(plops) or any(a is not b for a, b in zip(tape.operations, plops)) or len(tape.measurements) != len(mps):
+        return bad("export:input-tape-mutated", [o.name for o in tape.operations], [o.name for o in plops])
+    for kw2 in ({"rotations": rot, "measure_all": mall, "precision": prec}, {"rotations": not rot, "measure_all": not mall, "precision": 5},
+                {"rotations": rot, "measure_all": mall, "precision": prec}):
+        try:
+            text2 = qp.to_openqasm(tape, wires=wires_arg, **kw2)
+        except ValueError:
+            text2 = None
+    if text2 != text:
+        return bad("export:repeated-export-differs", text2, text)
+    if len(tape.operations) != len(plops):
+        return bad("export:input-tape-mutated", [o.name for o in tape.operations], [o.name for o in plops])
     # ---- the wire order the program is supposed to use: `wires` if given, else the tape's wires
     seen = []
     for o in ops:
